@@ -5,6 +5,37 @@ HERE = os.path.dirname(os.path.dirname(os.path.abspath(__file__)))
 PY = "/venv/bin/python"
 
 CHECKS = {
+    "C01": dict(
+        technique="exhaustive enumeration of a bounded case space (type x value x input form x placement) executed on the real constructors; read-back oracle against the value-tree model",
+        text="Every type of a bounded universe (all 58 rank<=3 shape/mask/axis-order combinations over all 11 leaf kinds, all structs of 1-2 (thorough 1-3) leaf fields, second and third nesting levels over layout-signature representatives incl. references and union references) x 3 value alphabets (position-coded ramp, extremes incl. inf/nan/-0/subnormal/integer limits/multi-byte UTF-8, minimal incl. empty arrays/strings and nulls) x every applicable input form (plain data, 5 ndarray layouts, xobject from same/other buffer/context/buffer kind, nested xobjects, string capacity) x 12 placements; full read-back through every accessor incl. to_nplike/to_nparray.",
+        note="Values and nesting outside the enumerated universe are not covered; the universe is exhaustive within its stated menus (xoverif/universe.py).",
+        design="2/C01"),
+    "C03": dict(
+        technique="exhaustive case enumeration + depth-bounded explicit-state BFS over assignment histories on the real code; byte-diff confinement oracle on traced, poisoned buffers",
+        text="Construction of every universe type x forms x placements with live poisoned neighbours flush on both sides (two complementary poisons), and every history of fitting assignments (leaf / whole compound, through handle, view, nested view) up to the stated depth on the history sub-universe: changed bytes must lie inside extents the traced allocator handed out for the object; reported size == reserved extent == documented size; nested parts inside parents, siblings disjoint.",
+        note="Buffer tracing is done by harness subclasses of the CPU buffers (no hook in /repo).",
+        design="2/C03"),
+    "C05": dict(
+        technique="exhaustive case enumeration; independent documented-layout decoder (reference model) applied to the raw bytes of every constructed object",
+        text="For every universe type x value x {plain data, ndarray C/F, capacity, xobject copy} x placement, a decoder written only from the documentation recovers the value from raw bytes, with every size word, offset table (memory order), stride, NUL padding, reference encoding and slot boundary checked.",
+        note="The decoder is the harness's reading of Architecture.md / docs/architecture/types.rst.",
+        design="2/C05"),
+    "C06": dict(
+        technique="exhaustive case enumeration + depth-bounded explicit-state BFS over write histories; differential oracle handle vs rebuilt view at every nesting level",
+        text="After construction (whole universe) and after every write event (history sub-universe, depth 1 quick / 2 thorough) the view rebuilt from (buffer, offset) and the rebuilt view of every nested compound agree with the constructor-side handles on value at every index, shape, strides, size, item/field offsets and cached structure.",
+        note="Stand-alone union references are compared through their target.",
+        design="2/C06"),
+    "C10": dict(
+        technique="explicit-state BFS (replay-based, deduplicated on buffer bytes + model) over assignment/growth histories on the real objects against a value-tree reference model",
+        text="From every validated object of the history sub-universe, all histories up to depth 2 (quick) / 3 (thorough) over {set leaf, set whole nested struct/array of equal size from plain data / ndarray / xobject, grow buffer} x {handle, view, nested view}; after every transition full re-read == model updated at that path only, structural snapshot unchanged, changed bytes inside the assigned element.",
+        note="Fitting = same layout for whole-compound assignment; strings up to the slot capacity fixed at creation.",
+        design="2/C10"),
+    "C11": dict(
+        technique="exhaustive enumeration of the property's misuse classes at every element position (optionally after every legal one-step history), executed on the real objects; raise + unchanged-value oracle",
+        text="Every out-of-range index (each axis x {-1, dim, dim+1}, read and write), wrong-length / reshaping whole-array update, over-long string (+1 byte, +1 slot, +64), same-length list with a larger dynamic item, non-member union value, on every array/string/union position of the history sub-universe with live neighbours; constructor misuse (_buffer of another context with _context, _offset without _buffer) on the whole universe. Must raise; victim and neighbours re-read unchanged.",
+        note="Only the misuse classes named by the property are demanded to raise.",
+        design="2/C11"),
+
     "C04": dict(
         technique="explicit-state BFS over allocate/free/grow histories on the real XBuffer; invariant oracle on every transition",
         text="All histories of allocate/free/grow up to the stated depth on 240 buffer configurations (2 CPU buffer kinds x initial capacity x default alignment x grow_step), executed on the real XBuffer; in-bounds, alignment, disjointness and data preservation (unique tags re-read after every step, also across relocating growth) checked on every transition. Exhaustive within the bounds.",
